@@ -899,6 +899,70 @@ def id_items(d):
 
 
 def id_run_union(ns, case):
+    if any(sp[0] == "self" for sp in case["others"]):
+        return _id_run_union_self(ns, case)
+    return _id_run_union(ns, case)
+
+
+def _id_run_union_self(ns, case):
+    """`d.union(..., d, ...)`: the immutabledict itself among the arguments"""
+    real = ns.immutabledict
+    holder = {}
+
+    class _NS:
+        pass
+
+    def imm(items=()):
+        return real(items)
+
+    # build `me` first, then let id_build_other hand it back for the "self" specs
+    me = real([tuple(p) for p in case["self"]])
+    holder["me"] = me
+    orig_build = id_build_other
+
+    def build(ns2, spec):
+        if spec[0] == "self":
+            return me
+        return orig_build(ns2, spec)
+
+    others = [build(ns, sp) for sp in case["others"]]
+    before_me = list(me.items())
+    toks = [("I" + (kv_tok(before_me) if before_me else "")) if sp[0] == "self" else id_other_token(sp) for sp in case["others"]]
+    req = "immdict union %s %s" % (kv_tok(before_me), ";".join(toks) or "-")
+    key = lambda what: "immutabledict-%s-self-argument-%s" % (case["via"], what)  # noqa: E731
+    try:
+        res = getattr(me, case["via"])(*others)
+    except Exception as e:  # noqa: BLE001
+        return "E:" + exc_name(e), req, (key("raises"), repr(e))
+    got = list(res.items())
+    expected = {}
+    expected.update(before_me)
+    for o in others:
+        if o:
+            expected.update(o if not isinstance(o, _PlainMapping) else o._d)
+    nonempty_others = [o for o in others if o]
+    which = "fresh"
+    if res is me:
+        which = "self"
+    else:
+        for i, o in enumerate(others):
+            if res is o:
+                which = "arg%d" % i
+                break
+    line = "%s %s" % (which, kv_tok(got))
+    fail = None
+    if type(res) is not real:
+        fail = (key("result-not-immutabledict"), type(res).__name__)
+    elif got != list(expected.items()):
+        fail = (key("wrong-items"), "got %s expected %s" % (got, list(expected.items())))
+    elif list(me.items()) != before_me:
+        fail = (key("self-mutated"), "")
+    elif res is me and nonempty_others and before_me and any(o is not me for o in nonempty_others):
+        fail = (key("returned-self-although-other-contents"), "")
+    return line, req, fail
+
+
+def _id_run_union(ns, case):
     """case = {"self": items, "others": [spec...], "via": union|merge_with}
     returns (impl line, request line, fail)"""
     immutabledict = ns.immutabledict
@@ -1052,7 +1116,9 @@ def id_gen_items(rng, maxn=3, nkeys=5):
 
 
 def id_gen_other(rng):
-    kind = rng.choice(["none", "imm", "imm", "imm", "dict", "dict", "odict", "proxy", "mapping"])
+    kind = rng.choice(["none", "imm", "imm", "imm", "dict", "dict", "odict", "proxy", "mapping", "self"])
+    if kind == "self":
+        return ["self"]
     if kind == "none":
         return ["none"]
     return [kind, id_gen_items(rng)]
@@ -1136,6 +1202,13 @@ def lru_run_sequence(ns, cfg, ops):
                     if len(op) > 2 and op[2] == "default":
                         r = c.get(op[1], -7)  # explicit default
                         r = None if r == -7 else r
+                    elif len(op) > 2 and op[2] == "default-stored":
+                        # the default is a value currently stored under ANOTHER key
+                        others = [item[1] for kk, item in c._data.items() if kk != op[1]]
+                        dflt = others[0] if others else -7
+                        missing = op[1] not in c._data
+                        r = c.get(op[1], dflt)
+                        r = None if (missing and r == dflt) else r
                     else:
                         r = c.get(op[1])
                     ret = "-" if r is None else "v%d" % r
@@ -1264,7 +1337,7 @@ def lru_gen(rng, maxlen=16):
             val[0] += 1
             ops.append(["set", k, val[0]])
         elif w < 0.57:
-            ops.append(["get", k] + (["default"] if rng.random() < 0.4 else []))
+            ops.append(["get", k] + rng.choice([[], [], ["default"], ["default-stored"]]))
         elif w < 0.67:
             ops.append(["getitem", k])
         elif w < 0.73:
